@@ -1,9 +1,11 @@
 package tsoh
 
 import (
+	"context"
 	"fmt"
 	"math/rand"
 	"sync"
+	"sync/atomic"
 	"time"
 
 	"github.com/tikv/pd/server/tso"
@@ -105,6 +107,7 @@ func localGlobal(args map[string]string) error {
 	time.Sleep(500 * time.Millisecond)
 	rng := rand.New(rand.NewSource(seed))
 	var base int64
+	var needBits int64 // suffix width required once the later datacenter has its suffix (0 = not yet)
 	req := func(who string, n uint32) {
 		var p *pdserver.PD
 		dc := who
@@ -120,7 +123,7 @@ func localGlobal(args map[string]string) error {
 		s := w.Seq()
 		ts, err := p.S.GetTSOAllocatorManager().HandleTSORequest(dc, n)
 		e := w.Seq()
-		ev := trace.Ev{"ev": "ts", "who": who, "n": int(n), "s": s, "e": e, "err": err != nil, "phys": 0, "logical": 0, "bits": 0}
+		ev := trace.Ev{"ev": "ts", "who": who, "n": int(n), "s": s, "e": e, "err": err != nil, "phys": 0, "logical": 0, "bits": 0, "need_bits": int(atomic.LoadInt64(&needBits))}
 		if err == nil {
 			mu.Lock()
 			if base == 0 {
@@ -131,6 +134,37 @@ func localGlobal(args map[string]string) error {
 		}
 		w.Emit(ev)
 	}
+	// A fourth datacenter registers later (its member writes the dc-location key); the members notice it at different
+	// times: followers before the PD leader has given it a suffix, the leader, the followers again. The datacenter then
+	// leaves (a global timestamp needs an allocator in every registered datacenter) but keeps its suffix, so from here on
+	// every timestamp must report a suffix width that covers it.
+	join := func() {
+		lp := leaderPD()
+		if lp == nil || atomic.LoadInt64(&needBits) != 0 {
+			return
+		}
+		ctx := context.Background()
+		key := lp.S.GetMember().GetDCLocationPath(987654321)
+		if _, err := lp.S.GetClient().Put(ctx, key, "dc-4"); err != nil {
+			return
+		}
+		check := func(leader bool) {
+			for _, p := range pds {
+				if (p == lp) == leader {
+					p.S.GetTSOAllocatorManager().ClusterDCLocationChecker()
+				}
+			}
+		}
+		check(false)
+		check(true)
+		check(false)
+		lp.S.GetClient().Delete(ctx, key)
+		check(true)
+		check(false)
+		bits := lp.S.GetTSOAllocatorManager().GetSuffixBits()
+		w.Emit(trace.Ev{"ev": "join", "dc": "dc-4", "bits": bits})
+		atomic.StoreInt64(&needBits, int64(bits))
+	}
 	w.Reset(trace.Ev{"beh": 0, "mode": "localglobal", "globalcount": maxGlobalCount})
 	req("global", 1) // fixes the time base
 	gcount := func() uint32 {
@@ -140,6 +174,9 @@ func localGlobal(args map[string]string) error {
 		return uint32(1 + rng.Intn(maxGlobalCount))
 	}
 	for r := 0; r < rounds; r++ {
+		if r == rounds/2 {
+			join()
+		}
 		switch rng.Intn(10) {
 		case 0, 1, 2, 3, 4:
 			// sequential pattern inside one physical tick: global, a few locals, global
